@@ -59,7 +59,7 @@ theorem osStep_ex_none {w w' : World} {c sc f r} (h : osStep w c sc f = some (w'
       · exact .inl hn
       · exact drop fd o.path hn
     | close fd =>
-      rcases osStep_close_spec h with ⟨e, _, rfl⟩ | ⟨o, _, _, rfl⟩
+      rcases osStep_close_spec h with rfl | ⟨o, _, _, rfl⟩
       · exact .inl hn
       · exact drop fd o.path hn
     | _ => simp [Sys.ctl] at hctl
@@ -126,7 +126,7 @@ theorem histOK_post {w : World} {fr : Frame} (hp : fr.pc.preLock = false) (hl : 
   unfold HistOK; rw [if_neg (by simp [hp]), if_neg (by simp [hl])]; exact h
 
 theorem afterOpen_not_preLock (op : Op) (fd : Fd) : (afterOpen op fd).preLock = false := by
-  cases op <;> simp only [afterOpen] <;> first | rfl | (split <;> rfl)
+  cases op <;> simp only [afterOpen, finPc_eq] <;> first | rfl | (split <;> rfl)
 
 theorem afterLock_not_preLock (op : Op) (fd : Fd) : (afterLock op fd).preLock = false := by
   unfold afterLock; split
@@ -136,7 +136,7 @@ theorem afterLock_not_preLock (op : Op) (fd : Fd) : (afterLock op fd).preLock = 
 theorem advancePc_data_not_preLock (op : Op) (pc : Pc) (n : Nat) (r : Res) (hd : pc.isData = true) :
     (advancePc op pc n r).preLock = false := by
   cases pc <;> simp [Pc.isData] at hd
-  all_goals simp only [advancePc, rollbackPc, Gen.Lockedfile.truncAfterLock, if_true]
+  all_goals simp only [advancePc, finPc_eq, rollbackPc, Gen.Lockedfile.truncAfterLock, if_true]
   all_goals (repeat' split)
   all_goals first | rfl | exact afterOpen_not_preLock _ _
 
@@ -171,9 +171,9 @@ theorem hist_step {w w' : World} {c held} {fr : Frame} {n sc tag f r}
       have h1 : (nextFrame w w' fr (.open fr.op.path (openFlags fr.op.flag)) tag f n r).h1 = [] := by
         rw [nextFrame_h1_eq (by intro fd e; rw [hpc] at e; cases e)]; exact hh.1
       rcases osStep_open_spec h with ⟨e, rfl, _⟩ | ⟨rfl, _⟩
-      · exact histOK_post (by simp [nextFrame, hpc, advancePc, Pc.preLock]) (by simp [nextFrame, hpc, advancePc, Pc.locked]) (.inl h1)
+      · exact histOK_post (by simp [nextFrame, hpc, advancePc, finPc_eq, Pc.preLock]) (by simp [nextFrame, hpc, advancePc, finPc_eq, Pc.locked]) (.inl h1)
       · have : (nextFrame w w' fr (.open fr.op.path (openFlags fr.op.flag)) tag f n (.fd w.nextFd)).pc.preLock = true := by
-          simp [nextFrame, hpc, advancePc, Gen.Lockedfile.truncAfterLock, Pc.preLock]
+          simp [nextFrame, hpc, advancePc, finPc_eq, Gen.Lockedfile.truncAfterLock, Pc.preLock]
         unfold HistOK; rw [if_pos this]
         exact ⟨h1, by rw [hw]; exact hh.2⟩
     case lock fd =>
@@ -184,13 +184,13 @@ theorem hist_step {w w' : World} {c held} {fr : Frame} {n sc tag f r}
           simp [nextFrame, hpc]; exact hh.1
         have : (nextFrame w' w' fr (.flock fd (lockMode fr.op.flag)) tag f n (.err e)).pc = .lock fd ∨
             (nextFrame w' w' fr (.flock fd (lockMode fr.op.flag)) tag f n (.err e)).pc = .close fd .err false := by
-          simp only [nextFrame, hpc, advancePc]
+          simp only [nextFrame, hpc, advancePc, finPc_eq]
           cases e <;> simp [Gen.Lockedfile.retriesEINTR]
         rcases this with hp | hp
         · unfold HistOK; rw [hp]; simp only [Pc.preLock, if_true]; exact ⟨h1, hh.2⟩
         · exact histOK_post (by rw [hp]; rfl) (by rw [hp]; rfl) (.inl h1)
       · apply histOK_of_snap
-        · simp only [nextFrame, hpc, advancePc]; exact afterLock_not_preLock _ _
+        · simp only [nextFrame, hpc, advancePc, finPc_eq]; exact afterLock_not_preLock _ _
         · show (acquire w fd o.path (lockMode fr.op.flag)).hist fr.op.path =
               (nextFrame w (acquire w fd o.path (lockMode fr.op.flag)) fr (.flock fd (lockMode fr.op.flag)) tag f n .ok).h1 ∧
             fr.h0 <:+ (nextFrame w (acquire w fd o.path (lockMode fr.op.flag)) fr (.flock fd (lockMode fr.op.flag)) tag f n .ok).h1
@@ -205,9 +205,9 @@ theorem hist_step {w w' : World} {c held} {fr : Frame} {n sc tag f r}
         nextFrame_h1_eq (by intro fd e; rw [hpc] at e; cases e)
       rcases osStep_funlock_spec h with ⟨e, rfl, rfl⟩ | ⟨o, ho, rfl, rfl⟩
       · apply histOK_of_snap
-        · simp only [nextFrame, hpc, advancePc]; cases e <;> simp [Gen.Lockedfile.retriesEINTR, Pc.preLock]
+        · simp only [nextFrame, hpc, advancePc, finPc_eq]; cases e <;> simp [Gen.Lockedfile.retriesEINTR, Pc.preLock]
         · rw [h1]; exact hh
-      · exact histOK_post (by simp [nextFrame, hpc, advancePc, Pc.preLock]) (by simp [nextFrame, hpc, advancePc, Pc.locked])
+      · exact histOK_post (by simp [nextFrame, hpc, advancePc, finPc_eq, Pc.preLock]) (by simp [nextFrame, hpc, advancePc, finPc_eq, Pc.locked])
           (.inr (by rw [h1]; exact hh.2))
     case close fd ret b =>
       simp at hs; obtain ⟨rfl, _⟩ := hs
@@ -220,7 +220,7 @@ theorem hist_step {w w' : World} {c held} {fr : Frame} {n sc tag f r}
         · simp at hh; exact .inr hh.2
       have : ∃ ret', (nextFrame w w' fr (.close fd) tag f n r).pc = .done ret' ∧ ret'.isHandle = false := by
         have hr' : ret.isHandle = false := by have := hf.ret; rw [hpc] at this; exact this
-        simp only [nextFrame, hpc, advancePc]
+        simp only [nextFrame, hpc, advancePc, finPc_eq]
         split
         · exact ⟨_, rfl, hr'⟩
         · exact ⟨_, rfl, closeRet_isHandle _ _ _ hr'⟩
@@ -230,7 +230,7 @@ theorem hist_step {w w' : World} {c held} {fr : Frame} {n sc tag f r}
     case user s' =>
       simp at hs; obtain ⟨rfl, _⟩ := hs
       simp only [HistOK, hpc, Pc.preLock, Pc.locked, Bool.false_eq_true, if_false] at hh
-      exact histOK_post (by simp [nextFrame, hpc, advancePc, Pc.preLock]) (by simp [nextFrame, hpc, advancePc, Pc.locked])
+      exact histOK_post (by simp [nextFrame, hpc, advancePc, finPc_eq, Pc.preLock]) (by simp [nextFrame, hpc, advancePc, finPc_eq, Pc.locked])
         (by rw [nextFrame_h1_eq (by intro fd e; rw [hpc] at e; cases e)]; exact hh)
     case done r' => cases hs
 
@@ -341,22 +341,22 @@ theorem readOK_step {s : State} {w' : World} {c : Cid} {fr : Frame} {p n sc tag 
   case «open» =>
     simp at hs; obtain ⟨rfl, _⟩ := hs
     rcases osStep_open_spec h with ⟨e, rfl, rfl⟩ | ⟨rfl, rfl⟩
-    · simp only [advancePc] at hpc'; subst hpc'
+    · simp only [advancePc, finPc_eq] at hpc'; subst hpc'
       intro v hv; cases hv
-    · simp [advancePc, Gen.Lockedfile.truncAfterLock] at hpc'; subst hpc'
+    · simp [advancePc, finPc_eq, Gen.Lockedfile.truncAfterLock] at hpc'; subst hpc'
       exact ⟨_, upd_same _ _ _, rfl⟩
   case lock fd =>
     simp at hs; obtain ⟨rfl, _⟩ := hs
     rcases osStep_flock_spec h with ⟨e, rfl, rfl⟩ | ⟨o, ho, hc, rfl, rfl⟩
     · have : pc' = .lock fd ∨ pc' = .close fd .err false := by
-        rw [← hpc']; simp only [advancePc]
+        rw [← hpc']; simp only [advancePc, finPc_eq]
         cases e <;> simp [Gen.Lockedfile.retriesEINTR]
       rcases this with hp | hp <;> subst hp
       · exact hr
       · intro v hv; cases hv
     · have : pc' = .readAll fd [] := by
         rw [← hpc']
-        simp only [advancePc, afterLock, hop, Op.flag, afterOpen]
+        simp only [advancePc, finPc_eq, afterLock, hop, Op.flag, afterOpen, finPc_eq]
         have : wantsTrunc Gen.Lockedfile.flagsOpen = false := by decide
         simp [this]
       subst this
@@ -371,10 +371,10 @@ theorem readOK_step {s : State} {w' : World} {c : Cid} {fr : Frame} {p n sc tag 
       simp only [hpc, Pc.locked, if_true] at hlk
       have hop' : o.path = fr.op.path := ow.path ho
       rcases osStep_read_spec h with ⟨e, rfl, rfl⟩ | ⟨o', ho', _, ⟨hlt, rfl, rfl⟩ | ⟨hge, rfl, rfl⟩⟩
-      · simp only [advancePc] at hpc'; subst hpc'
+      · simp only [advancePc, finPc_eq] at hpc'; subst hpc'
         intro v hv; cases hv
       · rw [ho] at ho'; cases ho'
-        simp only [advancePc] at hpc'; subst hpc'
+        simp only [advancePc, finPc_eq] at hpc'; subst hpc'
         refine ⟨_, upd_same _ _ _, ?_, ?_⟩
         · show acc ++ _ = List.take (acc ++ _).length (s.w.content fr.op.path)
           rw [List.length_append, List.take_add, ← hacc, hop', hoff]
@@ -382,7 +382,7 @@ theorem readOK_step {s : State} {w' : World} {c : Cid} {fr : Frame} {p n sc tag 
           exact (take_length_take _ n).symm
         · simp [hoff, hop']
       · rw [ho] at ho'; cases ho'
-        simp only [advancePc] at hpc'; subst hpc'
+        simp only [advancePc, finPc_eq] at hpc'; subst hpc'
         intro v hv; cases hv
         -- the whole file has been read; under the shared lock it is the newest committed value
         have hD : acc = s.w.content fr.op.path := by
@@ -402,7 +402,7 @@ theorem readOK_step {s : State} {w' : World} {c : Cid} {fr : Frame} {p n sc tag 
     rw [nextFrame_h1_eq (by intro fd e; rw [hpc] at e; cases e)] at hh1; subst hh1
     have hcr : closeRet fr.op ret true = ret := by simp [closeRet, hop, reportsCloseErr]
     have : pc' = .unlock fd ret ∨ ∃ b, pc' = .close fd ret b := by
-      rw [← hpc']; simp only [advancePc, hcr]
+      rw [← hpc']; simp only [advancePc, finPc_eq, hcr]
       cases r <;> simp
       rename_i e; cases e <;> simp [Gen.Lockedfile.retriesEINTR]
     rcases this with hp | ⟨b, hp⟩ <;> subst hp <;> exact hr
@@ -411,7 +411,7 @@ theorem readOK_step {s : State} {w' : World} {c : Cid} {fr : Frame} {p n sc tag 
     rw [nextFrame_h1_eq (by intro fd e; rw [hpc] at e; cases e)] at hh1; subst hh1
     have hcr : closeRet fr.op ret true = ret := by simp [closeRet, hop, reportsCloseErr]
     have : pc' = .done ret := by
-      rw [← hpc']; simp only [advancePc, hcr]; split <;> rfl
+      rw [← hpc']; simp only [advancePc, finPc_eq, hcr]; split <;> rfl
     subst this; exact hr
   case done r' => cases hs
   all_goals exact hr.elim
